@@ -263,7 +263,7 @@ func stopStorm(rounds int) map[string]interface{} {
 			for atomic.LoadInt32(&ready) < parties {
 			}
 		}
-		var wg sync.WaitGroup
+		var wg, sender sync.WaitGroup
 		for g := 0; g < 3; g++ {
 			wg.Add(1)
 			go func() {
@@ -281,19 +281,39 @@ func stopStorm(rounds int) map[string]interface{} {
 			wg.Add(1)
 			go func() { defer wg.Done(); meet(); close(src.ch) }()
 		}
+		if r%4 == 2 {
+			// ... while the source hands over an event nobody will read: the relay reaches its send with the watch
+			// being stopped at that very moment
+			sender.Add(1)
+			go func() {
+				defer sender.Done()
+				for atomic.LoadInt32(&ready) < parties-1 {
+				}
+				select {
+				case src.ch <- watch.Event{Type: watch.Added, Object: &apps.StatefulSet{ObjectMeta: metav1.ObjectMeta{Name: "storm"}}}:
+				case <-src.done:
+				case <-time.After(100 * time.Millisecond):
+				}
+			}()
+		}
 		wg.Wait()
-		// the result channel is closed shortly after
-		select {
-		case _, ok := <-w.ResultChan():
-			if ok {
-				open++
+		// the result channel is closed shortly after (an event the relay had already handed over may come first)
+		closed := false
+		for k := 0; k < 3 && !closed; k++ {
+			select {
+			case _, ok := <-w.ResultChan():
+				closed = !ok
+			case <-time.After(500 * time.Millisecond):
+				k = 3
 			}
-		case <-time.After(500 * time.Millisecond):
+		}
+		if !closed {
 			open++
 		}
 		if n := atomic.LoadInt32(&src.stops); n != 1 {
 			badStops++
 		}
+		sender.Wait()
 		if r%2 == 0 {
 			close(src.ch)
 		}
